@@ -29,6 +29,7 @@ type verifC10Env struct {
 	// frame offsets) and does not hold READ0 yet, so nothing stops a checkpointer
 	window       bool
 	ckptInWindow bool
+	hotJournal   bool // a writer died mid-transaction and left a hot journal behind
 }
 
 func (e *verifC10Env) image() [][]byte {
@@ -78,6 +79,9 @@ func (e *verifC10Env) step() {
 		if ok {
 			ok, _ = db.TryLocks(ctx, 1, []LockType{LockTypeShared})
 		}
+		if ok && e.hotJournal {
+			ok = false // the next writer would first roll the hot journal back: not modelled here
+		}
 		if ok {
 			jf, err := db.CreateJournal()
 			must(err)
@@ -87,6 +91,15 @@ func (e *verifC10Env) step() {
 			p := rt.Bytes("envwrite", verifP)
 			verifHeaderPage(p, db.PageN(), false)
 			must(db.WriteDatabaseAt(ctx, dbf, p, 0, 1))
+			if rt.Choose("journal.writer.dies", 2) == 1 {
+				// the connection goes away before finalising the journal: its locks are dropped (what the
+				// FUSE flush does), the hot journal and the uncommitted page stay, the position does not move
+				e.acted += " [journal writer died mid-transaction at " + at + "]"
+				e.hotJournal = true
+				db.UnlockDatabase(ctx, 1)
+				rt.Reach("c10.env.journal.abandoned")
+				return
+			}
 			must(db.RemoveJournal(ctx))
 			e.record()
 			rt.Reach("c10.env.journal.commit")
@@ -196,6 +209,8 @@ func VerifC10Snapshot() {
 		}
 		e.step()
 	})
+	e.point = "before-start"
+	e.step()
 	hdr, trl, err := db.WriteSnapshotTo(ctx, &buf)
 	rt.OnAtomicLoad(nil)
 	if err != nil {
@@ -237,6 +252,8 @@ func VerifC10Export() {
 		}
 		e.step()
 	})
+	e.point = "before-start"
+	e.step()
 	pos, err := db.Export(ctx, &buf)
 	rt.OnAtomicLoad(nil)
 	if err != nil {
@@ -247,7 +264,9 @@ func VerifC10Export() {
 	img, ok := e.history[pos.TXID]
 	rt.Check(ok, "a completed export reports a committed position")
 	class := ""
-	if e.ckptInWindow {
+	if e.hotJournal {
+		class = " {a hot journal left by a dead writer was on disk when Export read the database}"
+	} else if e.ckptInWindow {
 		class = " {a checkpoint ran after Export released its temporary WRITE lock and before it held READ0}"
 	}
 	rt.Check(bytes.Equal(buf.Bytes(), verifJoin(img)), "export is exactly the image of the position it reports (no mixture, no uncommitted page); environment:"+e.acted+class)
